@@ -126,6 +126,11 @@ func vxFinalEq(m *Map, c *vxContent, k1, k2 string) bool {
 func VxH_Map_par2(opA, opB, tableLen, chain, minLen, mode int) {
 	m, c := vxArbMap(tableLen, chain, minLen)
 	kA, kB := VxStr("kA"), VxStr("kB")
+	if mode >= 10 {
+		// racers on one key
+		VxAssume(kA == kB)
+		mode -= 10
+	}
 	if mode >= 0 {
 		// at most `mode` entries in the pre-state (mode < 0: unrestricted)
 		VxAssume(c.count() <= mode)
